@@ -311,22 +311,27 @@ def job_history(period, first_blocks, hdr_mode, nant):
     pl = dict(fn='history', period=period, first_blocks=first_blocks, hdr_mode=hdr_mode, nant=nant)
     fs = MemFS()
     user = {'HELLO': 'x', 'PKTIDX': 500}
+    # 'explicit_twin': the earlier recording carried numerically EQUAL values of another type under the same keys
+    # (180 / 180.0, 0.0 / 0); what the later recording writes is the text of ITS values
+    user_first = dict(user, RA=180, STT_OFFS=0.0, NUM=7.0) if hdr_mode == 'explicit_twin' else user
+    if hdr_mode == 'explicit_twin':
+        user = dict(user, RA=180.0, STT_OFFS=0, NUM=7)
     with volt_patches(opener=fs.open, extra=[(DS, dict(estimate_stats=stats_stub)), (Q, dict(quantize_real=quantize_real_stub))]):
         def kw(d):
             k = dict(num_blocks=None, length_mode='num_blocks', digitize=True, verbose=False, load_template=False)
-            if hdr_mode == 'explicit':
+            if hdr_mode in ('explicit', 'explicit_twin'):
                 k['header_dict'] = d
             return k
 
         def run():
             beA, antA = build_real(2, nant, period)
-            dA = dict(user)
+            dA = dict(user_first)
             k1 = kw(dA)
             k1['num_blocks'] = first_blocks
             beA.record('/mem/a1', **k1)
             kmid = antA.k
             dA2 = dict(user)
-            k2 = kw(dA2 if hdr_mode == 'explicit' else None)
+            k2 = kw(dA2 if hdr_mode in ('explicit', 'explicit_twin') else None)
             k2['num_blocks'] = 2
             beA.record('/mem/a2', **k2)
             beB, antB = build_real(2, nant, period)
@@ -349,6 +354,11 @@ def job_history(period, first_blocks, hdr_mode, nant):
                 continue
             hdr_a = bytes(x for x in a if isinstance(x, int))
             hdr_b = bytes(x for x in b if isinstance(x, int))
+            if hdr_mode == 'explicit_twin':
+                cards = {hdr_a[i:i + 8].decode().strip(): hdr_a[i + 9:i + 80].decode().strip().strip("'").strip() for i in range(0, len(hdr_a), 80)}
+                for key in ('RA', 'STT_OFFS', 'NUM'):
+                    if cards.get(key) != str(user[key]):
+                        problems.append(f"{n1}: card {key} reads {cards.get(key)!r}, the value handed to this recording is {user[key]!r} (the earlier recording carried {user_first[key]!r})")
             if hdr_a != hdr_b:
                 la = [hdr_a[i:i + 80] for i in range(0, len(hdr_a), 80)]
                 lb = [hdr_b[i:i + 80] for i in range(0, len(hdr_b), 80)]
@@ -362,7 +372,7 @@ def job_history(period, first_blocks, hdr_mode, nant):
                     d = z3.simplify(lift(x) - lift(y))
                     if not (z3.is_rational_value(d) and d.numerator_as_long() == 0):
                         dis.append(d != 0)
-    if hdr_mode == 'explicit' and dA2 != user:
+    if hdr_mode in ('explicit', 'explicit_twin') and dA2 != user:
         problems.append(f"caller's header dictionary was modified: {sorted(set(dA2.items()) ^ set(user.items()))[:3]}")
     r0, _ = core.check([RV(int(not problems)) != 1])
     recs.append(q(tag + ':headers/framing/caller-dict', r0, trivial=True, detail='; '.join(problems[:2])))
@@ -699,9 +709,13 @@ def replay_history(p):
                                       block_size=2 * 2 * p['nant'] * 2 * 4 * 8, blocks_per_file=2, num_subblocks=3)
             return be, src
         user = {'HELLO': 'x', 'PKTIDX': 500}
-        kw = lambda dct: (dict(header_dict=dct) if p['hdr_mode'] == 'explicit' else {})
+        twin = p['hdr_mode'] == 'explicit_twin'
+        user_first = dict(user, RA=180, STT_OFFS=0.0, NUM=7.0) if twin else user
+        if twin:
+            user = dict(user, RA=180.0, STT_OFFS=0, NUM=7)
+        kw = lambda dct: (dict(header_dict=dct) if p['hdr_mode'] in ('explicit', 'explicit_twin') else {})
         beA, srcA = mk()
-        beA.record(os.path.join(d, 'a1'), num_blocks=p['first_blocks'], length_mode='num_blocks', verbose=False, load_template=False, **kw(dict(user)))
+        beA.record(os.path.join(d, 'a1'), num_blocks=p['first_blocks'], length_mode='num_blocks', verbose=False, load_template=False, **kw(dict(user_first)))
         srcA.set_time(0)
         dA2 = dict(user)
         beA.record(os.path.join(d, 'a2'), num_blocks=2, length_mode='num_blocks', verbose=False, load_template=False, **kw(dA2))
@@ -714,13 +728,19 @@ def replay_history(p):
                                    qz.ComplexQuantizer(num_bits=8, stats_calc_period=p['period'], stats_calc_num_samples=50), start_chan=0, num_chans=2,
                                    block_size=2 * 2 * p['nant'] * 2 * 4 * 8, blocks_per_file=2, num_subblocks=3)
         beB.record(os.path.join(d, 'b2'), num_blocks=2, length_mode='num_blocks', verbose=False, load_template=False, **kw(dict(user)))
+        if twin:
+            from setigen.voltage import raw_utils as ru_
+            h2 = ru_.read_header(os.path.join(d, 'a2.0000.raw'))
+            for key in ('RA', 'STT_OFFS', 'NUM'):
+                if str(h2.get(key)).strip() != str(user[key]):
+                    msgs.append(f"card {key} of the later recording reads {h2.get(key)!r}; it was given {user[key]!r} (the earlier recording carried {user_first[key]!r})")
         ha = hashlib.sha256(open(os.path.join(d, 'a2.0000.raw'), 'rb').read()).hexdigest()
         hb = hashlib.sha256(open(os.path.join(d, 'b2.0000.raw'), 'rb').read()).hexdigest()
         if ha != hb:
             ra, rb = open(os.path.join(d, 'a2.0000.raw'), 'rb').read(), open(os.path.join(d, 'b2.0000.raw'), 'rb').read()
             nd = sum(1 for x, y in zip(ra, rb) if x != y)
             msgs.append(f"second recording differs from the same recording on a fresh backend ({nd} of {len(ra)} bytes)")
-        if p['hdr_mode'] == 'explicit' and dA2 != user:
+        if p['hdr_mode'] in ('explicit', 'explicit_twin') and dA2 != user:
             msgs.append(f"caller dictionary modified: {dA2}")
     except Exception as e:
         msgs.append(f"raised {type(e).__name__}: {e}")
@@ -815,6 +835,7 @@ def main():
             for hdr_mode in ('default', 'explicit'):
                 jobs.append(('job_history', (period, first_blocks, hdr_mode, 1)))
     jobs.append(('job_history', (3, 1, 'explicit', 2)))
+    jobs.append(('job_history', (1, 1, 'explicit_twin', 1)))
     for (delays, fb_, npol, source) in (((0, 3), 1, 1, 'array'), ((2, 0), 2, 2, 'array'), ((0, 0), 1, 1, 'array'), ((0,), 1, 2, 'antenna'), ((0,), 2, 1, 'antenna')):
         jobs.append(('job_history_array', (delays, fb_, npol, source)))
     for (na_, np_) in ((1, 2), (2, 1)):
